@@ -219,15 +219,19 @@ func (pi *c03PatchInfo) rangeLen(m c03Msg) int64 {
 	return (m.RSpan-1)*lib.BS + last
 }
 
-// Coq renders the message list for the model: target (old) file sizes, source (new) file
-// sizes and the messages with their payloads reduced to lengths.
+// Coq renders the message list for the model: is-overlay flags of the source files, target
+// (old) file sizes, source (new) file sizes and the messages, payloads reduced to lengths.
 func (pi *c03PatchInfo) Coq() string {
 	var tsz, ssz []int64
+	tpaths := map[string]bool{}
 	for _, f := range pi.Target.Files {
 		tsz = append(tsz, f.Size)
+		tpaths[f.Path] = true
 	}
+	var isov []string
 	for _, f := range pi.Source.Files {
 		ssz = append(ssz, f.Size)
+		isov = append(isov, lib.CoqBool(tpaths[f.Path]))
 	}
 	ms := make([]string, len(pi.Msgs))
 	for i, m := range pi.Msgs {
@@ -248,5 +252,5 @@ func (pi *c03PatchInfo) Coq() string {
 			ms[i] = "MCtrlEof"
 		}
 	}
-	return fmt.Sprintf("(%s, %s, ([%s])%%N)", lib.CoqNList(tsz), lib.CoqNList(ssz), strings.Join(ms, "; "))
+	return fmt.Sprintf("%s, %s, %s, ([%s])%%N", lib.CoqList(isov), lib.CoqNList(tsz), lib.CoqNList(ssz), strings.Join(ms, "; "))
 }
